@@ -190,9 +190,17 @@ type c02Session struct {
 }
 
 type c02Line struct {
-	K int `json:"k"`
-	S Q   `json:"s"`
-	F int `json:"form,omitempty"` // K=1: which well-formed shape carries the number
+	K   int `json:"k"`
+	S   Q   `json:"s"`
+	F   int `json:"form,omitempty"` // K=1: which well-formed shape carries the number
+	Pad int `json:"pad,omitempty"`  // K=1: bytes of padding after the number; K=0: the probe is preceded by this many filler bytes
+}
+
+func c02Pad(n int) string {
+	if n <= 0 {
+		return ""
+	}
+	return " " + strings.Repeat("p", n)
 }
 
 var c02Forms = []string{
@@ -203,12 +211,25 @@ var c02Forms = []string{
 	"@a :vsrc!v@v notice &x :%s",
 }
 
-var probeParams = []string{"", "x", "me", "#c", ":", ":me", "1", "LS", "ACK", "NAK", "sasl", "+", "*", "@me", "+o", "-k", "me!u@h", "=", "\x01PING\x01", "\x01VERSION\x01", "a b"}
+var probeParams = []string{"", "x", "x", "me", "me", "#c", "#c", "#c", "#d", "other", ":", ":me", "1", "LS", "ACK", "NAK", "sasl", "+", "*", "@me", "+o", "+o", "-k", "+l", "+k", "+v-o", "H", "H*", "me!u@h", "=", "\x01PING\x01", "\x01VERSION\x01", "a b"}
+
+// c02Warmup puts a tracked client on two channels with some other users so that hostile lines reach
+// the state handlers' deeper paths.
+var c02Warmup = []string{
+	":irc.server 001 me :Welcome me!ident@host",
+	":me!ident@host JOIN #c",
+	":irc.server 353 me = #c :me @x +other",
+	":irc.server 366 me #c :End",
+	":me!ident@host JOIN :#d",
+	":irc.server 353 me = #d :me x",
+	":other!o@h JOIN #d",
+}
 
 func genBuiltinProbe(t *rapid.T) string {
-	verbs := []string{"001", "433", "NICK", "PING", "CAP", "410", "AUTHENTICATE", "903", "904", "908", "JOIN", "KICK", "MODE", "PART", "QUIT", "TOPIC", "311", "324", "332", "352", "353", "671", "PRIVMSG", "NOTICE", "REGISTER", "CONNECTED", "DISCONNECTED", "ERROR"}
+	verbs := []string{"001", "433", "NICK", "PING", "CAP", "410", "AUTHENTICATE", "903", "904", "908", "JOIN", "KICK", "MODE", "PART", "QUIT", "TOPIC", "311", "324", "332", "352", "353", "671", "PRIVMSG", "NOTICE", "REGISTER", "CONNECTED", "DISCONNECTED", "ERROR",
+		"JOIN", "JOIN", "KICK", "MODE", "MODE", "PART", "QUIT", "NICK", "NICK", "TOPIC", "311", "324", "332", "352", "352", "353", "353", "671"}
 	var b strings.Builder
-	switch rapid.IntRange(0, 4).Draw(t, "probe_src") {
+	switch rapid.IntRange(0, 6).Draw(t, "probe_src") {
 	case 0:
 		b.WriteString(":me!ident@host ")
 	case 1:
@@ -217,6 +238,10 @@ func genBuiltinProbe(t *rapid.T) string {
 		b.WriteString(":irc.server ")
 	case 3:
 		b.WriteString("@t=1;u :x!y@z ")
+	case 4:
+		b.WriteString(":x ")
+	case 5:
+		b.WriteString(":nobody!n@h ")
 	}
 	b.WriteString(rapid.SampledFrom(verbs).Draw(t, "probe_verb"))
 	n := rapid.IntRange(0, 8).Draw(t, "probe_nparams")
@@ -248,10 +273,20 @@ func genC02Session(t *rapid.T) *c02Session {
 		case 0, 1, 2:
 			s.Lines = append(s.Lines, c02Line{K: 0, S: Q(genBuiltinProbe(t))})
 		case 3:
-			s.Lines = append(s.Lines, c02Line{K: 0, S: Q(genHostileLine(t, "hostile"))})
+			ln := c02Line{K: 0, S: Q(genHostileLine(t, "hostile"))}
+			if rapid.IntRange(0, 5).Draw(t, "long_probe") == 0 {
+				// a very long unknown-verb line whose tail looks like a message of ours: it must stay ONE line
+				ln.S = Q(":vsrc!v@v PRIVMSG #vchan :Sq7Gz-9999")
+				ln.Pad = rapid.SampledFrom([]int{4000, 4050, 4090, 4095, 4096, 4097, 4100, 8185, 8192, 9000}).Draw(t, "probe_pad") - rapid.IntRange(0, 40).Draw(t, "probe_pad_off")
+			}
+			s.Lines = append(s.Lines, ln)
 		default:
 			seq++
-			s.Lines = append(s.Lines, c02Line{K: 1, S: Q(fmt.Sprintf("%d", seq)), F: rapid.IntRange(0, len(c02Forms)-1).Draw(t, "form")})
+			ln := c02Line{K: 1, S: Q(fmt.Sprintf("%d", seq)), F: rapid.IntRange(0, len(c02Forms)-1).Draw(t, "form")}
+			if rapid.IntRange(0, 7).Draw(t, "long_numbered") == 0 {
+				ln.Pad = rapid.SampledFrom([]int{3900, 4000, 4040, 4096, 4200, 8192, 9000}).Draw(t, "pad") + rapid.IntRange(0, 60).Draw(t, "pad_off")
+			}
+			s.Lines = append(s.Lines, ln)
 		}
 	}
 	seq++
@@ -285,13 +320,21 @@ func runC02Session(s *c02Session) *Violation {
 	c := tc.conn()
 	var want []string
 	var all strings.Builder
+	if s.Tracking {
+		for _, w := range c02Warmup {
+			c.SendLine(w)
+		}
+	}
 	for _, ln := range s.Lines {
 		var wire string
 		if ln.K == 1 {
-			wire = fmt.Sprintf(c02Forms[ln.F%len(c02Forms)], pfx+string(ln.S))
-			want = append(want, string(ln.S))
+			wire = fmt.Sprintf(c02Forms[ln.F%len(c02Forms)], pfx+string(ln.S)+c02Pad(ln.Pad))
+			want = append(want, string(ln.S)+c02Pad(ln.Pad))
 		} else {
 			wire = strings.ReplaceAll(string(ln.S), "\n", " ")
+			if ln.Pad > 0 {
+				wire = "ZZLONG " + strings.Repeat("f", ln.Pad) + wire
+			}
 		}
 		if s.Burst {
 			all.WriteString(wire + "\r\n")
@@ -313,7 +356,17 @@ func runC02Session(s *c02Session) *Violation {
 	got := append([]string(nil), log...)
 	mu.Unlock()
 	if strings.Join(got, ",") != strings.Join(want, ",") {
-		return violationf("C02", "well-formed lines delivered %v, want %v (in order, once each)", got, want)
+		clipAll := func(in []string) []string {
+			out := []string{}
+			for _, x := range in {
+				if len(x) > 24 {
+					x = fmt.Sprintf("%s...(%d bytes)", x[:12], len(x))
+				}
+				out = append(out, x)
+			}
+			return out
+		}
+		return violationf("C02", "well-formed lines delivered %v, want %v (in order, once each, unaltered)", clipAll(got), clipAll(want))
 	}
 	if !tc.C.Connected() {
 		return violationf("C02", "client disconnected itself during a session of server lines")
